@@ -156,6 +156,8 @@ def correspondence(rng, tier):
     import p_C03
     r['mismatches'] += p_C03.pinned_drift()
     r['rule'] = r.get('rule', '') + '; plus complex_value_programs: complex kernel programs (functions x points around every branch cut x operand kinds, operators x operand-kind pairs, ureal x complex-literal promotion), model CKernel.v'
+    import modcorr
+    modcorr.add_to(r, modcorr.mod_correspondence(rng, tier, 'C01m'), 'mod_fmod', 'x % y and fmod(x, y) of uncertain reals of every structural kind (elementary, dependent, sum, scaled, declared intermediate, constant, mixed) against the model Special.v umod/ufmod (value and the three component vectors bit for bit)')
     return r
 
 def kf_C01_intermediate_times_complex():
